@@ -4,6 +4,7 @@ import (
 	"bytes"
 	"context"
 	"fmt"
+	"iter"
 	"math"
 	"sort"
 	"time"
@@ -766,27 +767,46 @@ func (r *Runner) doIter(a *Action, pv *any, call func(func())) error {
 	which := a.N % 5
 	names := []string{"All", "Keys", "Values", "Hottest", "Coldest"}
 	var entries []otter.Entry[int, int]
+	// The iterator is obtained first and ranged after the clock has moved by a.Dur (usually 0): what it
+	// yields is judged at the time of ranging.
+	late := a.Dur
+	if nv, of := SatAdd(r.now(), late); late < 0 || of || nv > math.MaxInt64-(1<<50) {
+		late = 0
+	}
 	call(func() {
+		var s2 iter.Seq2[int, int]
+		var s1k, s1v iter.Seq[int]
+		var se iter.Seq[otter.Entry[int, int]]
 		switch which {
 		case 0:
-			for k, v := range c.All() {
+			s2 = c.All()
+		case 1:
+			s1k = c.Keys()
+		case 2:
+			s1v = c.Values()
+		case 3:
+			se = c.Hottest()
+		case 4:
+			se = c.Coldest()
+		}
+		if late > 0 {
+			r.Env.Clock.Advance(late)
+		}
+		switch which {
+		case 0:
+			for k, v := range s2 {
 				got = append(got, kv{k, v})
 			}
 		case 1:
-			for k := range c.Keys() {
+			for k := range s1k {
 				got = append(got, kv{k, 0})
 			}
 		case 2:
-			for v := range c.Values() {
+			for v := range s1v {
 				got = append(got, kv{0, v})
 			}
-		case 3:
-			for en := range c.Hottest() {
-				got = append(got, kv{en.Key, en.Value})
-				entries = append(entries, en)
-			}
-		case 4:
-			for en := range c.Coldest() {
+		default:
+			for en := range se {
 				got = append(got, kv{en.Key, en.Value})
 				entries = append(entries, en)
 			}
